@@ -145,6 +145,7 @@ func (k *Counter) Snapshot() map[string]int {
 type toolFn = func(ctx context.Context, req *mcp.CallToolRequest) (*mcp.CallToolResult, error)
 type promptFn = func(ctx context.Context, req *mcp.GetPromptRequest) (*mcp.GetPromptResult, error)
 type resourceFn = func(ctx context.Context, req *mcp.ReadResourceRequest) (mcp.ResourceContents, error)
+type resourcesFn = func(ctx context.Context, req *mcp.ReadResourceRequest) ([]mcp.ResourceContents, error)
 
 // registrar adapts the registration API of the three server kinds (their handler parameter types
 // are unexported named types, so a plain interface cannot describe them).
@@ -153,6 +154,8 @@ type registrar struct {
 	RegisterPrompt   func(p *mcp.Prompt, h promptFn)
 	RegisterResource func(r *mcp.Resource, h resourceFn)
 	UnregisterTools  func(names ...string) error
+	// RegisterResources registers a resource whose handler returns several contents.
+	RegisterResources func(r *mcp.Resource, h resourcesFn)
 }
 
 func regOf(x interface{}) registrar {
@@ -163,6 +166,7 @@ func regOf(x interface{}) registrar {
 			func(p *mcp.Prompt, h promptFn) { s.RegisterPrompt(p, h) },
 			func(r *mcp.Resource, h resourceFn) { s.RegisterResource(r, h) },
 			s.UnregisterTools,
+			func(r *mcp.Resource, h resourcesFn) { s.RegisterResources(r, h) },
 		}
 	case *mcp.SSEServer:
 		return registrar{
@@ -170,6 +174,7 @@ func regOf(x interface{}) registrar {
 			func(p *mcp.Prompt, h promptFn) { s.RegisterPrompt(p, h) },
 			func(r *mcp.Resource, h resourceFn) { s.RegisterResource(r, h) },
 			s.UnregisterTools,
+			func(r *mcp.Resource, h resourcesFn) { s.RegisterResources(r, h) },
 		}
 	case *mcp.StdioServer:
 		return registrar{
@@ -177,6 +182,7 @@ func regOf(x interface{}) registrar {
 			func(p *mcp.Prompt, h promptFn) { s.RegisterPrompt(p, h) },
 			func(r *mcp.Resource, h resourceFn) { s.RegisterResource(r, h) },
 			s.UnregisterTools,
+			func(r *mcp.Resource, h resourcesFn) { s.RegisterResources(r, h) },
 		}
 	}
 	panic(fmt.Sprintf("regOf: %T", x))
